@@ -31,34 +31,34 @@ B_NOTE = ('bounded model checking of the real functions (MIR of the current tree
 TECH = 'symbolic execution of rustc MIR + z3 (SMT), cvc5 cross-check, native replay of counterexamples'
 CLAIMED = {
     'C01': {'engine': 'engine-b-mirse', 'design_ref': 'DESIGN.md section 4 C01',
-            'text': 'solver-decided obligations on the read path below DB::get and on what a reopen restores: InternalKey order (O1.1, Kani), binary search over a level (O1.3), files consulted by a lookup and their order (O1.4), Table::get tri-state for every lookup bound (O1.6), manifest snapshot preserves file metadata (O1.7), level-0 compactions take every overlapping level-0 file whatever triggered them (O7.7), WAL replay applies every batch and restores the last sequence of the newest batch / the maximum over all replayed logs (O2.5a, O2.5b)',
+            'text': 'solver-decided obligations on the read path below DB::get and on what a reopen restores: InternalKey order (O1.1, Kani), binary search over a level (O1.3), files consulted by a lookup and their order (O1.4), Table::get tri-state for every lookup bound (O1.6), manifest snapshot preserves file metadata (O1.7), Version::get answers from the first consulted table that knows the key and never skips a read error (O1.5), compaction inputs and flush placement never leave an older version above a newer one (O7.2, O7.4c, O7.7, O7.8), WAL replay applies every batch and restores the last sequence of the newest batch / the maximum over all replayed logs (O2.5a, O2.5b)',
             'note': B_NOTE, 'technique': TECH},
     'C08': {'engine': 'engine-b-mirse', 'design_ref': 'DESIGN.md section 4 C08',
-            'text': 'error propagation for every combination of failing steps: VersionSet::log_and_apply (O8.2), the leader of DB::apply_changes incl. failed-state recording and write-ahead order (O8.3), memtable flush (O2.4)',
+            'text': 'error propagation for every combination of failing steps: VersionSet::log_and_apply (O8.2), the leader of DB::apply_changes incl. failed-state recording and write-ahead order (O8.3), DB::set_current_file (create / write / rename failures reported, CURRENT only switched by rename; O8.4), LogWriter::new (failed open or size query reported; O12.5), memtable flush (O2.4)',
             'note': B_NOTE, 'technique': TECH},
     'C10': {'engine': 'engine-b-mirse', 'design_ref': 'DESIGN.md section 4 C10',
-            'text': 'file metadata and level shape: hull of several files (O7.1, known finding D4), binary search on well-formed levels (O1.3), file comparator is a total order (O10.3), version edits keep levels >= 1 sorted and disjoint and equal base - deleted + added (O10.5), manifest snapshot preserves (level, number, size, smallest..largest) (O1.7)',
+            'text': 'file metadata and level shape: hull of several files (O7.1, known finding D4), binary search on well-formed levels (O1.3), file comparator is a total order (O10.3), version edits keep levels >= 1 sorted and disjoint and equal base - deleted + added (O10.5), a flush records the first and last written key as the bounds of its table (O10.6), the seek-compaction candidate is recorded with the level it lives in (O10.7), manifest snapshot preserves (level, number, size, smallest..largest) (O1.7)',
             'note': B_NOTE, 'technique': TECH},
     'C02': {'engine': 'engine-b-mirse', 'design_ref': 'DESIGN.md section 4 C02',
-            'text': 'log level and orchestration steps: for every writer-producible log of <= 3 (thorough: 4) fragments cut at ANY byte the reader returns exactly the complete records before the cut, then end-of-file (O12.3 = O2.1); a flush drops the immutable memtable / removes obsolete files only after table write and manifest edit succeeded (O2.4); open replays exactly the WALs >= the manifest WAL number in ascending order, treats only the newest as reusable, restores the maximal sequence (O2.5b); one WAL contributes every batch and its true last sequence (O2.5a); VersionSet::recover restores the last recorded WAL number / sequence / file counter from a manifest of <= 2 (thorough: 3) records and gives a manifest that is not reused a number different from the one CURRENT names (O2.6); a log writer reopened on an existing file continues at the block position where the file ends (O12.5)',
-            'note': B_NOTE + '; crash points are not enumerated: the obligations are the per-step facts the crash argument rests on; CURRENT switching (set_current_file) and table builds are not encoded', 'technique': TECH},
+            'text': 'log level and orchestration steps: for every writer-producible log of <= 3 (thorough: 4) fragments cut at ANY byte the reader returns exactly the complete records before the cut, then end-of-file (O12.3 = O2.1); a flush drops the immutable memtable / removes obsolete files only after table write and manifest edit succeeded (O2.4); open replays exactly the WALs >= the manifest WAL number in ascending order, treats only the newest as reusable, restores the maximal sequence (O2.5b); one WAL contributes every batch and its true last sequence (O2.5a); VersionSet::recover restores the last recorded WAL number / sequence / file counter from a manifest of <= 2 (thorough: 3) records and gives a manifest that is not reused a number different from the one CURRENT names (O2.6); a log writer reopened on an existing file continues at the block position where the file ends (O12.5); CURRENT is switched by write-temp-then-rename and failures are reported (O8.4); a table build starts from an empty file even if a leftover with its number exists (O14.4) and writes every entry (O10.6); DB::open removes obsolete files only after recovery and the manifest edit (O11.2)',
+            'note': B_NOTE + '; crash points are not enumerated: the obligations are the per-step facts the crash argument rests on', 'technique': TECH},
     'C12': {'engine': 'engine-b-mirse', 'design_ref': 'DESIGN.md section 4 C12',
             'text': 'writer fragmentation geometry for every start offset and record length <= 3 blocks (O12.1); a reopened writer starts at file size mod 32768 for every 64-bit size (O12.5); reader reassembly over abstract block-accurate fragment streams: intact or cut at any byte (O12.3), abandoned record prefix + reopened writer (O12.4)',
             'note': B_NOTE + '; byte contents (payload fidelity, CRC) are not represented in Engine B', 'technique': TECH},
     'C15': {'engine': 'engine-b-mirse', 'design_ref': 'DESIGN.md section 4 C15',
-            'text': 'log reader under one fragment with a failing checksum (any position, symbolic lengths): exactly the damaged record is dropped, every other record is returned, alignment is kept (O15.5); a seek into an unreadable table block reports an error every time (O4.3); Kani: one-record log with one altered byte never yields a foreign record (O15.2), parsers never panic on arbitrary bytes (O15.3), crc masking is a bijection (O15.1)',
+            'text': 'log reader under one fragment with a failing checksum (any position, symbolic lengths): exactly the damaged record is dropped, every other record is returned, alignment is kept (O15.5); a seek into an unreadable table block reports an error every time (O4.3); Version::get reports the read error of the first table that knows the key instead of answering from an older table (O1.5); a compaction fails when a level-0 input cannot be opened (O15.6); Kani: one-record log with one altered byte never yields a foreign record (O15.2), parsers never panic on arbitrary bytes (O15.3), crc masking is a bijection (O15.1)',
             'note': B_NOTE + '; corruption is modelled as "BlockRecord::try_from fails for that fragment" with an intact length field; table files and manifests are not covered', 'technique': TECH},
     'C16': {'engine': 'engine-b-mirse', 'design_ref': 'DESIGN.md section 4 C16',
-            'text': 'log level and recovery steps: a torn tail is end-of-file and costs only the torn record (O12.3 with the cut inside the last fragment); open restores the maximal sequence over all replayed WALs even if the newest is empty or torn, and reuses only the newest WAL (O2.5b); records appended after a torn tail (O16.2) - known finding D1c; a reopened writer continues at the block position where the file ends (O12.5)',
-            'note': B_NOTE + '; manifest reuse after a torn manifest tail is not encoded', 'technique': TECH},
+            'text': 'log level and recovery steps: a torn tail is end-of-file and costs only the torn record (O12.3 with the cut inside the last fragment); open restores the maximal sequence over all replayed WALs even if the newest is empty or torn, and reuses only the newest WAL (O2.5b); records appended after a torn tail (O16.2) - known finding D1c; a reopened writer continues at the block position where the file ends (O12.5); a manifest is reused only when reuse is enabled and it is small enough (O2.6)',
+            'note': B_NOTE + '; the effect of appending to a manifest with a torn tail is the log-level finding D1c', 'technique': TECH},
     'C03': {'engine': 'engine-b-mirse', 'design_ref': 'DESIGN.md section 4 C03',
-            'text': 'mechanisms behind frozen snapshots: Table::get honours the sequence bound and keeps older files searchable (O1.6); a table compaction is bounded by the OLDEST live snapshot (O3.2a); the merge keep/drop rule preserves what every snapshot >= that bound sees (O3.2b); the live-file set covers every level of every live version (O3.3); the database iterator shows exactly the pairs visible at its sequence number (O4.2)',
+            'text': 'mechanisms behind frozen snapshots: the per-level binary search uses full internal keys (O1.3); Version::get answers from the first table that knows the key (O1.5); a scan gets an iterator for every level incl. the last (O4.5); Table::get honours the sequence bound and keeps older files searchable (O1.6); a table compaction is bounded by the OLDEST live snapshot (O3.2a); the merge keep/drop rule preserves what every snapshot >= that bound sees (O3.2b); the live-file set covers every level of every live version (O3.3); the database iterator shows exactly the pairs visible at its sequence number (O4.2)',
             'note': B_NOTE + '; pinning of files by live versions (obsolete-file deletion) and reader/compaction interleavings are not covered', 'technique': TECH},
     'C04': {'engine': 'engine-b-mirse', 'design_ref': 'DESIGN.md section 4 C04',
-            'text': 'all three iterator layers against reference cursors, for every cursor pattern of length <= 4 (quick: 13 patterns incl. all direction reversals and seeks; thorough: all 750): MergingIterator with CachingIterator inlined = cursor over the merged array (O4.1); DatabaseIterator = cursor over the pairs visible at its sequence number, every grouping of <= 3 internal entries into user keys (O4.2); TwoLevelIterator = cursor over the concatenated data blocks, and a seek into an unreadable block errs every time (O4.3)',
-            'note': B_NOTE + '; the collapse of internal entries to user-visible ones (DatabaseIterator) and block/table level iterators are not covered by this check', 'technique': TECH},
+            'text': 'all three iterator layers against reference cursors, for every cursor pattern of length <= 4 (quick: 17 patterns incl. all direction reversals, seeks and absolute repositioning; thorough: all 750): MergingIterator with CachingIterator inlined = cursor over the merged array (O4.1); DatabaseIterator = cursor over the pairs visible at its sequence number, every grouping of <= 3 internal entries into user keys (O4.2); TwoLevelIterator = cursor over the concatenated data blocks, and a seek into an unreadable block errs every time (O4.3); DB::new_iterator merges exactly the active memtable, the immutable memtable if any and the current version, at the snapshot / last published sequence (O4.4); Version::get_representative_iterators covers all seven levels (O4.5)',
+            'note': B_NOTE + '; quick: 17 cursor patterns; block-level iterators are by contract', 'technique': TECH},
     'C05': {'engine': 'engine-b-mirse', 'design_ref': 'DESIGN.md section 4 C05',
-            'text': 'sequential mechanism only: DB::get / new_iterator read memtable pointer, immutable memtable, current version and visible sequence while the database mutex is held and look up at the published sequence (O5.1); a group commit merges exactly the queue prefix it acknowledges (O5.2); a write publishes its sequence under the mutex after the memtable insert (O6.1); a flush keeps the immutable memtable until the new version is installed (O2.4)',
+            'text': 'sequential mechanism only: DB::get / new_iterator read memtable pointer, immutable memtable, current version and visible sequence while the database mutex is held and look up at the published sequence (O5.1); a group commit merges exactly the queue prefix it acknowledges (O5.2); an iterator created during a flush includes the immutable memtable (O4.4); a write publishes its sequence under the mutex after the memtable insert (O6.1); a flush keeps the immutable memtable until the new version is installed (O2.4)',
             'note': B_NOTE + '; this checks the documented capture-under-mutex mechanism, NOT linearizability: thread interleavings are not explored; a violation is replayed with a forced schedule through cfg(verif) scheduling points', 'technique': TECH + '; lock-state monitor over MIR paths'},
     'C06': {'engine': 'engine-b-mirse', 'design_ref': 'DESIGN.md section 4 C06',
             'text': 'sequential mechanism only: in DB::apply_changes the batch starts at prev+1, the WAL append precedes the memtable insert, and prev+len is published with the mutex held and only after the unlocked WAL+memtable section has returned (O6.1); reads look up at the published sequence (O5.1)',
@@ -67,16 +67,16 @@ CLAIMED = {
             'text': 'self-deadlock freedom of get_descriptor (3 descriptors), get_snapshot, release_snapshot, compact_range, get, new_iterator (O9.1); the background task clears its scheduled flag and wakes ALL waiters on every path (O9.2); applying a well-formed version edit never panics (the worker thread dies on such a panic) (O10.5)',
             'note': B_NOTE + '; data-insensitive exploration (paths are merged by lock state per call context); queue hand-off, condition-variable liveness and every other interleaving-dependent hang are outside the claim', 'technique': TECH + '; lock-state monitor over MIR paths, native watchdog replay'},
     'C13': {'engine': 'engine-b-mirse + engine-a-kani', 'design_ref': 'DESIGN.md section 4 C13',
-            'text': 'below the whole-file level: Table::get tri-state for every lookup bound over abstract block cursors (O1.6); two-level table iterator = cursor over the concatenated data blocks incl. an unreadable block (O4.3); block handles point at the written bytes (O14.3); byte-level (Kani): separators / successors keep lower <= sep < upper and satisfy the index-key contract assumed by O1.6 (O13.1), InternalKey order (O1.1)',
+            'text': 'below the whole-file level: Table::get tri-state for every lookup bound over abstract block cursors (O1.6); two-level table iterator = cursor over the concatenated data blocks incl. an unreadable block (O4.3); block handles point at the written bytes (O14.3), also when a leftover file with the table number exists (O14.4); every entry reaches the data block and the filter block, index entries carry the flushed handle (O14.5); byte-level (Kani): separators / successors keep lower <= sep < upper and satisfy the index-key contract assumed by O1.6 (O13.1), InternalKey order (O1.1)',
             'note': B_NOTE + '; Engine A: Kani/CBMC on the compiled crate, shapes (key lengths 1-3) are harness constants, alloc::fmt::format stubbed; block encoding / prefix compression / snappy / footer are not covered (codec round trips exceed the memory budget)', 'technique': TECH + '; Kani/CBMC bounded model checking for byte-level units'},
     'C14': {'engine': 'engine-a-kani + engine-b-mirse', 'design_ref': 'DESIGN.md section 4 C14',
-            'text': 'Kani: a Bloom filter built from two keys (lengths 0-5, symbolic bytes, several bits_per_key) answers true for both, also when read by a policy with another bits_per_key (O14.1); Engine B: filter block builder and reader map every block offset to the same filter index (O14.2); the offset TableBuilder announces to the filter builder after a flush is exactly the next data block handle offset that Table::get later passes to the filter (O14.3)',
+            'text': 'Kani: a Bloom filter built from two keys (lengths 0-5, symbolic bytes, several bits_per_key) answers true for both, also when read by a policy with another bits_per_key (O14.1); Engine B: filter block builder and reader map every block offset to the same filter index (O14.2); the offset TableBuilder announces to the filter builder after a flush is exactly the next data block handle offset that Table::get later passes to the filter (O14.3); TableBuilder::add_entry adds the user key of EVERY entry to the filter, after the full block was flushed (O14.5)',
             'note': 'Kani: key counts, key lengths and bits_per_key are harness constants, alloc::fmt::format stubbed; ' + B_NOTE + '; byte contents of filter blocks (serialisation of the offset array) are not covered', 'technique': 'Kani/CBMC bounded model checking of the compiled code with concrete-playback replay; ' + TECH},
     'C11': {'engine': 'engine-b-mirse', 'design_ref': 'DESIGN.md section 4 C11',
-            'text': 'DB::remove_obsolete_files deletes exactly the WALs older than the version set\'s current WAL (except the one being compacted), tables / temp files neither live nor in use, manifests older than the current one, nothing after a background error, and only inside the unlocked section (O11.1, all numbers symbolic); VersionSet::get_live_files covers every level of every live version (O3.3)',
+            'text': 'DB::remove_obsolete_files deletes exactly the WALs older than the version set\'s current WAL (except the one being compacted), tables / temp files neither live nor in use, manifests older than the current one, nothing after a background error, and only inside the unlocked section (O11.1, all numbers symbolic); VersionSet::get_live_files covers every level of every live version (O3.3); DB::open removes obsolete files exactly once on every successful open (O11.2); the outputs of a running compaction stay in the protected set (O11.3)',
             'note': B_NOTE + '; directory contents are abstract listings (1-2 files per directory); reader / deletion interleavings and crash images are not explored', 'technique': TECH},
     'C07': {'engine': 'engine-b-mirse', 'design_ref': 'DESIGN.md section 4 C07',
-            'text': 'compaction input selection, keep/drop and version edit: hull of several files (O7.1, known finding D4), overlapping inputs incl. level-0 range expansion and its termination (O7.2), boundary files (O7.3), overlap test (O7.4a), base-level test for tombstones (O7.4b), memtable output level (O7.4c), initial inputs of size- and seek-triggered compactions (O7.7), compaction bounded by the oldest snapshot and keep/drop rule (O3.2a/b), version edit = base - deleted + added without panics (O10.5)',
+            'text': 'compaction input selection, keep/drop and version edit: hull of several files (O7.1, known finding D4), overlapping inputs incl. level-0 range expansion and its termination (O7.2), boundary files (O7.3), overlap test (O7.4a), base-level test for tombstones (O7.4b), memtable output level (O7.4c), final inputs: boundary-closed at both levels, every overlapping parent file included (O7.5, found and fixed D11), initial inputs of size- and seek-triggered compactions (O7.7) and of manual compactions (O7.8), a compaction reads all its inputs or fails (O15.6), compaction bounded by the oldest snapshot and keep/drop rule (O3.2a/b), version edit = base - deleted + added without panics (O10.5)',
             'note': B_NOTE, 'technique': 'symbolic execution of rustc MIR + z3 (SMT), cvc5 cross-check, native replay of counterexamples'},
 }
 
